@@ -93,6 +93,15 @@ CLAIMED = {
         "DESIGN.md 4 C11",
         "",
     ),
+    "C13": (
+        "Hypothesis command trees x terminal widths rendered by ApplicationHelp / CommandHelp; validity predicates (renders, completeness against the tree, hidden/disabled absence, line width); differential 'help <path>' vs '<path> --help' vs '<path> -h' vs the directly rendered page of the reference-selected command",
+        "Generated trees with unique names, options and arguments of every kind (descriptions absent/short/long/multi-line, typed defaults, "
+        "help texts) under the default application config at widths from the computed minimum to 200, ANSI and plain: every page renders "
+        "(twice, identically), lists all non-hidden commands, arguments and options with both names and no hidden/disabled command, keeps "
+        "every line within the width, and the three ways of asking for help through run() print the page of the selected command.",
+        "DESIGN.md 4 C13",
+        "",
+    ),
     "C15": (
         "explicit-state enumeration of section operation sequences + Hypothesis sequences, emitted bytes replayed on a terminal emulator and compared with a stacked-contents model",
         "All applicable sequences of create/write_line/overwrite/clear/clear(k) over up to 3 sections (depth 5 quick, 6-7 thorough) at "
